@@ -1758,7 +1758,7 @@ mod pack {
         known_or_violation(env, &format!("packing:{name}"), format!("{name}: {msg}"), json!({}))
     }
 
-    /// report with match key: share = mk || value || breakdown key (|| zero padding)
+    /// report with match key packed into one shuffle share (the layout is not part of the oracle)
     pub fn full<BK: BooleanArray, V: BooleanArray>(env: &Env, src: &mut Src<'_>, name: &str) -> Result<(), CaseErr> {
         type R<BK, V> = IndistinguishableHybridReport<BK, V>;
         let (nb, nv) = (BK::BITS as usize, V::BITS as usize);
@@ -1770,33 +1770,58 @@ mod pack {
             breakdown_key: ReplicatedSecretSharing::new(ba_from::<BK>(&bits[0][2]), ba_from(&bits[1][2])),
         };
         let joined = [Shuffleable::left(&report), Shuffleable::right(&report)];
-        for side in 0..2 {
-            let mut want = bits[side][0].clone();
-            want.extend(&bits[side][1]);
-            want.extend(&bits[side][2]);
-            want.resize(total, false);
-            if ba_bits(&joined[side]) != want {
-                fail(env, name, format!("joined {} share is not match key || value || breakdown key || zeros", ["left", "right"][side]))?;
-            }
-        }
+        // (1) lossless: splitting the joined shares gives the report back
         let back = <R<BK, V> as Shuffleable>::new(joined[0], joined[1]);
         if back != report {
             fail(env, name, format!("split(join(report)) = {back:?} differs from {report:?}"))?;
         }
-        // the other direction: arbitrary share bits survive split + join inside the used width
-        let raw = [gen_bits(src, total), gen_bits(src, total)];
-        let r2 = <R<BK, V> as Shuffleable>::new(ba_from(&raw[0]), ba_from(&raw[1]));
-        for (side, got) in [Shuffleable::left(&r2), Shuffleable::right(&r2)].iter().enumerate() {
-            let mut want = raw[side].clone();
-            want[64 + nv + nb..].iter_mut().for_each(|b| *b = false);
-            if ba_bits(got) != want {
-                fail(env, name, format!("join(split(share)) changes bits inside the used width ({} side)", ["left", "right"][side]))?;
+        // Which bit of the share holds which field bit is the code's own choice: the oracle does
+        // not fix a layout. What the shuffle relies on besides (1) is that both directions are
+        // GF(2)-linear (shares are masked and unmasked with XOR around them).
+        // (2) join is linear
+        let bits2: [[Vec<bool>; 3]; 2] = std::array::from_fn(|_| [gen_bits(src, 64), gen_bits(src, nv), gen_bits(src, nb)]);
+        let xor = |a: &Vec<bool>, b: &Vec<bool>| a.iter().zip(b).map(|(x, y)| x ^ y).collect::<Vec<bool>>();
+        let mk_report = |b: &[[Vec<bool>; 3]; 2]| R::<BK, V> {
+            match_key: ReplicatedSecretSharing::new(ba_from::<BA64>(&b[0][0]), ba_from(&b[1][0])),
+            value: ReplicatedSecretSharing::new(ba_from::<V>(&b[0][1]), ba_from(&b[1][1])),
+            breakdown_key: ReplicatedSecretSharing::new(ba_from::<BK>(&b[0][2]), ba_from(&b[1][2])),
+        };
+        let report2 = mk_report(&bits2);
+        let bits12: [[Vec<bool>; 3]; 2] = std::array::from_fn(|s| std::array::from_fn(|f| xor(&bits[s][f], &bits2[s][f])));
+        let report12 = mk_report(&bits12);
+        let (j2, j12) = ([Shuffleable::left(&report2), Shuffleable::right(&report2)], [Shuffleable::left(&report12), Shuffleable::right(&report12)]);
+        for side in 0..2 {
+            if xor(&ba_bits(&joined[side]), &ba_bits(&j2[side])) != ba_bits(&j12[side]) {
+                fail(env, name, format!("join is not linear: join(a) ^ join(b) != join(a ^ b) ({} side)", ["left", "right"][side]))?;
             }
+        }
+        // (3) split is linear on arbitrary share bits, and join(split(.)) is a projection
+        let raw = [gen_bits(src, total), gen_bits(src, total)];
+        let raw2 = [gen_bits(src, total), gen_bits(src, total)];
+        let fields = |r: &R<BK, V>| -> Vec<Vec<bool>> {
+            vec![
+                ba_bits(&ReplicatedSecretSharing::left(&r.match_key)), ba_bits(&ReplicatedSecretSharing::right(&r.match_key)),
+                ba_bits(&ReplicatedSecretSharing::left(&r.value)), ba_bits(&ReplicatedSecretSharing::right(&r.value)),
+                ba_bits(&ReplicatedSecretSharing::left(&r.breakdown_key)), ba_bits(&ReplicatedSecretSharing::right(&r.breakdown_key)),
+            ]
+        };
+        let ra = <R<BK, V> as Shuffleable>::new(ba_from(&raw[0]), ba_from(&raw[1]));
+        let rb = <R<BK, V> as Shuffleable>::new(ba_from(&raw2[0]), ba_from(&raw2[1]));
+        let rab = <R<BK, V> as Shuffleable>::new(ba_from(&xor(&raw[0], &raw2[0])), ba_from(&xor(&raw[1], &raw2[1])));
+        let (fa, fb, fab) = (fields(&ra), fields(&rb), fields(&rab));
+        for k in 0..fa.len() {
+            if xor(&fa[k], &fb[k]) != fab[k] {
+                fail(env, name, "split is not linear: split(s) ^ split(t) != split(s ^ t)".to_string())?;
+            }
+        }
+        let again = <R<BK, V> as Shuffleable>::new(Shuffleable::left(&ra), Shuffleable::right(&ra));
+        if again != ra {
+            fail(env, name, "split(join(split(share))) differs from split(share)".to_string())?;
         }
         Ok(())
     }
 
-    /// report without match key: share = value || breakdown key
+    /// report without match key packed into one shuffle share
     pub fn agg<BK: BooleanArray, V: BooleanArray>(env: &Env, src: &mut Src<'_>, name: &str) -> Result<(), CaseErr> {
         type R<BK, V> = IndistinguishableHybridReport<BK, V, ()>;
         let (nb, nv) = (BK::BITS as usize, V::BITS as usize);
@@ -1808,26 +1833,47 @@ mod pack {
             breakdown_key: ReplicatedSecretSharing::new(ba_from::<BK>(&bits[0][1]), ba_from(&bits[1][1])),
         };
         let joined = [Shuffleable::left(&report), Shuffleable::right(&report)];
-        for side in 0..2 {
-            let mut want = bits[side][0].clone();
-            want.extend(&bits[side][1]);
-            want.resize(total, false);
-            if ba_bits(&joined[side]) != want {
-                fail(env, name, format!("joined {} share is not value || breakdown key || zeros", ["left", "right"][side]))?;
-            }
-        }
         let back = <R<BK, V> as Shuffleable>::new(joined[0], joined[1]);
         if back != report {
             fail(env, name, format!("split(join(report)) = {back:?} differs from {report:?}"))?;
         }
-        let raw = [gen_bits(src, total), gen_bits(src, total)];
-        let r2 = <R<BK, V> as Shuffleable>::new(ba_from(&raw[0]), ba_from(&raw[1]));
-        for (side, got) in [Shuffleable::left(&r2), Shuffleable::right(&r2)].iter().enumerate() {
-            let mut want = raw[side].clone();
-            want[nv + nb..].iter_mut().for_each(|b| *b = false);
-            if ba_bits(got) != want {
-                fail(env, name, format!("join(split(share)) changes bits inside the used width ({} side)", ["left", "right"][side]))?;
+        // layout-agnostic, see `full`: linearity of both directions and the projection property
+        let xor = |a: &Vec<bool>, b: &Vec<bool>| a.iter().zip(b).map(|(x, y)| x ^ y).collect::<Vec<bool>>();
+        let bits2: [[Vec<bool>; 2]; 2] = std::array::from_fn(|_| [gen_bits(src, nv), gen_bits(src, nb)]);
+        let mk_report = |b: &[[Vec<bool>; 2]; 2]| R::<BK, V> {
+            match_key: (),
+            value: ReplicatedSecretSharing::new(ba_from::<V>(&b[0][0]), ba_from(&b[1][0])),
+            breakdown_key: ReplicatedSecretSharing::new(ba_from::<BK>(&b[0][1]), ba_from(&b[1][1])),
+        };
+        let report2 = mk_report(&bits2);
+        let bits12: [[Vec<bool>; 2]; 2] = std::array::from_fn(|s| std::array::from_fn(|f| xor(&bits[s][f], &bits2[s][f])));
+        let report12 = mk_report(&bits12);
+        let (j2, j12) = ([Shuffleable::left(&report2), Shuffleable::right(&report2)], [Shuffleable::left(&report12), Shuffleable::right(&report12)]);
+        for side in 0..2 {
+            if xor(&ba_bits(&joined[side]), &ba_bits(&j2[side])) != ba_bits(&j12[side]) {
+                fail(env, name, format!("join is not linear: join(a) ^ join(b) != join(a ^ b) ({} side)", ["left", "right"][side]))?;
             }
+        }
+        let raw = [gen_bits(src, total), gen_bits(src, total)];
+        let raw2 = [gen_bits(src, total), gen_bits(src, total)];
+        let fields = |r: &R<BK, V>| -> Vec<Vec<bool>> {
+            vec![
+                ba_bits(&ReplicatedSecretSharing::left(&r.value)), ba_bits(&ReplicatedSecretSharing::right(&r.value)),
+                ba_bits(&ReplicatedSecretSharing::left(&r.breakdown_key)), ba_bits(&ReplicatedSecretSharing::right(&r.breakdown_key)),
+            ]
+        };
+        let ra = <R<BK, V> as Shuffleable>::new(ba_from(&raw[0]), ba_from(&raw[1]));
+        let rb = <R<BK, V> as Shuffleable>::new(ba_from(&raw2[0]), ba_from(&raw2[1]));
+        let rab = <R<BK, V> as Shuffleable>::new(ba_from(&xor(&raw[0], &raw2[0])), ba_from(&xor(&raw[1], &raw2[1])));
+        let (fa, fb, fab) = (fields(&ra), fields(&rb), fields(&rab));
+        for k in 0..fa.len() {
+            if xor(&fa[k], &fb[k]) != fab[k] {
+                fail(env, name, "split is not linear: split(s) ^ split(t) != split(s ^ t)".to_string())?;
+            }
+        }
+        let again = <R<BK, V> as Shuffleable>::new(Shuffleable::left(&ra), Shuffleable::right(&ra));
+        if again != ra {
+            fail(env, name, "split(join(split(share))) differs from split(share)".to_string())?;
         }
         Ok(())
     }
@@ -2560,7 +2606,7 @@ pub fn subs(_env: &Env) -> Vec<Sub> {
             "every TransposeFrom impl (ba_to_ba 64/256; bool_to_ba 256x256, 8x256, 16x256, 16x32, 32x256, 8x32, 32x32, 8x8, 16x16, 8x16; ba_to_bool 256x64, 32x32, 32x16; ba_fn_to_bool 256x64; padded ba_to_bool 256x{32,16,8,5,3}, 32x{8,3}, 16x8; aggregation 256x256, 32x256) at array level and through the Vec/BitDecomposed shims, left and right share with independent matrices of classes {zero, ones, diagonal, single bit, one row, one column, corner, random}, destination pre-filled with ones: result equals the naive (i,j)->(j,i) transpose, shims agree and reject sources of the wrong length, and where the opposite impl exists rows -> bit-decomposed -> rows restores the input; non-trivial = not both matrices zero")
             .shrink_iters(60),
         Sub::random("packing", 64, 60_000, 2_000_000, packing,
-            "join_fields/split_fields (through Shuffleable::left/right/new of IndistinguishableHybridReport) for (BK,V) in {(BA8,BA3),(BA5,BA3),(BA8,BA8),(BA32,BA16),(BA3,BA3),(BA20,BA20),(BA16,BA32)} with match key (112-bit share) and {(BA8,BA3),(BA8,BA8),(BA16,BA16),(BA5,BA8),(BA8,BA16),(BA20,BA8),(BA16,BA8)} without (32-bit share): joined share = fields concatenated in order + zero padding, split(join(r)) = r, join(split(s)) = s inside the used width; BooleanArrayWriter/Reader over BA20/BA32/BA112/BA256 with up to 12 items of {Boolean, BA3, BA5, BA8, BA16, BA20, BA32, BA64}: container = concatenation (rest untouched), reader returns the items; field bits in {zero, ones, single/last bit, random}"),
+            "join_fields/split_fields (through Shuffleable::left/right/new of IndistinguishableHybridReport) for (BK,V) in {(BA8,BA3),(BA5,BA3),(BA8,BA8),(BA32,BA16),(BA3,BA3),(BA20,BA20),(BA16,BA32)} with match key (112-bit share) and {(BA8,BA3),(BA8,BA8),(BA16,BA16),(BA5,BA8),(BA8,BA16),(BA20,BA8),(BA16,BA8)} without (32-bit share): split(join(r)) = r (lossless), join and split are GF(2)-linear (what the XOR-masking shuffle relies on) and split(join(split(s))) = split(s) for arbitrary share bits - the bit layout inside the share is NOT part of the oracle; BooleanArrayWriter/Reader over BA20/BA32/BA112/BA256 with up to 12 items of {Boolean, BA3, BA5, BA8, BA16, BA20, BA32, BA64}: container = concatenation (rest untouched), reader returns the items; field bits in {zero, ones, single/last bit, random}"),
         Sub::random("query_config_json", 64, 60_000, 2_000_000, query_config_json,
             "QueryConfig over size {1,2,10^9-1,10^9,random} x FieldType x {TestMultiply, TestAdd, TestShardedShuffle, MaliciousHybrid{max_breakdown_key, with_dp in {0,1,256,u32::MAX,random}, finite epsilon in {0,-0,subnormal,min,max,-max,5,0.1,1/3,1e-7,decimal,random bits}, plaintext_match_keys}} and PrepareQuery with all role permutations through serde_json: decode(encode(v)) = v (floats by bit pattern), re-encoding is identical; sizes 0 / >10^9 and helper identities outside 1..3 are rejected"),
         Sub::random("query_config_http", 96, 200, 5_000, query_config_http,
